@@ -170,3 +170,28 @@ func debugIdxSites(w *World) {
 }
 
 func init() { extraDumps["idxsites"] = debugIdxSites }
+
+func init() {
+	extraDumps["idxproof"] = func(w *World) {
+		for _, name := range []string{"(*Decoder).readUntypedList", "(*_refHolder).notify", "readRunes", "(*Decoder).readObject"} {
+			fn := w.fn(name)
+			if fn == nil {
+				continue
+			}
+			sites := map[*ssa.IndexAddr]bool{}
+			for _, b := range fn.Blocks {
+				for _, in := range b.Instrs {
+					if ia, ok := in.(*ssa.IndexAddr); ok {
+						if _, isC := ia.Index.(*ssa.Const); !isC {
+							sites[ia] = true
+						}
+					}
+				}
+			}
+			res, complete := w.pxIndexRun(fn, sites, nil)
+			for ia, sr := range res {
+				fmt.Printf("%s %s complete=%v met=%d bad=%d lower=%v upper=%v %s\n", name, w.instrPos(ia), complete, sr.met, sr.bad, sr.lower, sr.upper, sr.fact)
+			}
+		}
+	}
+}
